@@ -1,11 +1,26 @@
-import CentrifugeVerif.Proofs.SubProto
+import CentrifugeVerif.Proofs.SubProtoInv
+import CentrifugeVerif.Model.SubProtoWitness
 /-!
 # C05 — nothing of a connection survives its end
+
+Proved for every reachable state (all labels, all interleavings, failures, timeouts):
+* `closed_is_final` — a closed connection never becomes open again;
+* `connections_gauge_lockstep` — the connections gauge is 1 exactly while the connection is
+  registered in the hub;
+* `closed_settled_unregistered` — closed and nothing in flight ⇒ not registered, gauge back to 0;
+* `closed_no_new_subscription` (in `Props/C04.lean`) — nothing is committed after the close point.
+
+`closed_settled_empty` in full (no routing entry, no presence entry, no `c.channels` entry after a
+settled close) is NOT proved, and it is false for the model once the 5 s wait-gate timeout fires:
+`closed_settled_empty_fails_with_timeout` is a checked execution in which a presence entry survives.
+That execution needs a goroutine switch between two lock regions of one `unsubscribe` call, which the
+gate-controlled harness cannot force, so it is a model-level counterexample only (no replay on the
+implementation).  Without the timeout the bounded explorer finds no violation (`props/C05/corpus.ops`).
 -/
 namespace CentrifugeVerif.SubProto
 
 theorem applyEff_closed (s : State) (e : Eff) (h : s.status = .closed) : (applyEff s e).status = .closed := by
-  cases e <;> simp only [applyEff] <;> (try split) <;> (try split) <;> simp_all
+  cases e <;> simp_all
 
 theorem applyEffs_closed (es : List Eff) (s : State) (h : s.status = .closed) : (applyEffs s es).status = .closed := by
   induction es generalizing s with
@@ -20,13 +35,45 @@ theorem closed_is_final (s s' : State) (l : Label) (h : s.status = .closed) (hn 
     simp only [next, Option.some.injEq] at hn
     subst hn; exact h
   | step tid o =>
-    simp only [next] at hn
-    split at hn
-    · cases hn
-    · split at hn
-      · cases hn
-      · simp only [Option.some.injEq] at hn
-        subst hn
-        exact applyEffs_closed _ _ h
+    obtain ⟨t, effs, t', _, _, rfl⟩ := next_step_some hn
+    exact applyEffs_closed _ _ h
+
+theorem reachable_regOk (s : State) (h : Reachable s) : RegOk s :=
+  reachable_invariant RegOk RegOk.init next_regOk s h
+
+/-- the connections-inflight gauge is 1 exactly while the connection is registered -/
+theorem connections_gauge_lockstep (s : State) (h : Reachable s) :
+    s.connGauge = if s.registered then 1 else 0 :=
+  (reachable_regOk s h).gauge
+
+/-- closed and nothing in flight ⇒ the connection is not registered on the node any more and the
+connections gauge is back to its value before the connection (0) -/
+theorem closed_settled_unregistered (s : State) (h : Reachable s) (hc : s.status = .closed) (hs : s.settled) :
+    s.registered = false ∧ s.connGauge = 0 := by
+  have hr := reachable_regOk s h
+  have hreg : s.registered = false := by
+    rcases hr.closedReg hc with h1 | ⟨tid, t, h1, h2⟩
+    · exact h1
+    · have := hs (tid, t) (aget_mem _ _ _ h1)
+      simp only at this
+      rw [this] at h2; cases h2
+  exact ⟨hreg, by rw [hr.gauge, hreg]; rfl⟩
+
+/-- … and, the subscriptions gauge being the number of routing entries, it is back to 0 exactly when
+no routing entry of the connection is left -/
+theorem closed_subscriptions_gauge (s : State) (h : Reachable s) : s.subGauge = 0 ↔ s.hub = [] := by
+  rw [(reachable_struct s h).gauge]
+  cases s.hub <;> simp; omega
+
+/-
+`closed_settled_empty` (full statement, not proved; false with timeouts, see below):
+  Reachable s → s.status = .closed → s.settled → c05Ok s = true
+-/
+
+/-- with the wait-gate timeout the model reaches a closed, settled state that still holds a presence
+entry of the connection -/
+theorem closed_settled_empty_fails_with_timeout :
+    (run State.init wPresenceSurvives).map (fun s => (s.status, settledB s, s.presence, c05Ok s)) =
+      some (.closed, true, [0], false) := by decide
 
 end CentrifugeVerif.SubProto
